@@ -345,7 +345,7 @@ class Spec:
             return
         for k in ("req_ok", "conn_add", "conn_tcp", "susp", "resume", "auth_chk", "cb_blocks", "post", "opt", "abort",
                   "handler", "completed", "conn_started", "conn_closed", "fd", "auth_ok", "auth_stale", "auth_respwrong",
-                  "auth_noncewrong", "auth_ok_sent", "ip_bind_fail", "body_mismatch", "stagger_runs", "stagger_conns", "stagger_closed_once"):
+                  "auth_noncewrong", "auth_ok_sent", "ip_bind_fail", "body_mismatch", "quietresume_retry", "stagger_runs", "stagger_conns", "stagger_closed_once"):
             st[k] += int(res.get(k, 0) or 0)
         if "stop_ms" in res:
             st["stop_ms_max"] = max(st["stop_ms_max"], int(res["stop_ms"]))
@@ -503,6 +503,8 @@ class Spec:
                                           "static_response": "every other reply", "body_checksum_mismatches": tot["body_mismatch"]},
             "c_add_connection_from_app_threads": {"MHD_add_connection_ok": tot["conn_add"], "calling_threads": clients,
                                                   "accepted_tcp": tot["conn_tcp"], "pinadd_runs": tot["pinadd_runs"]},
+            "quietresume": {"runs": tot["quietresume_runs"], "first_attempt_timed_out_second_ok": tot["quietresume_retry"],
+                            "ms_max": max([v.get("quietresume_ms_max", 0) for v in stats["modes"].values()] or [0])},
             "d_per_ip_accounting": {"distinct_client_addresses_max_per_run": max([v.get("ip_addrs_max", 0) for v in stats["modes"].values()] or [0]),
                                     "connections_counted": tot["conn_started"], "bind_failures": tot["ip_bind_fail"]},
             "e_stop_under_load": {k: {"stops_returned": v.get("stops_returned", 0), "stop_ms_max": v.get("stop_ms_max", 0)}
